@@ -42,6 +42,27 @@ func NewRoller() (*Roller, error) {
 	}, nil
 }
 
+// sameHelloID reports whether two ClientHelloIDs denote the same fingerprint.
+// Seed and Weights are compared by value: ApplyPreset fills in the default
+// Weights (and a generated Seed) on the connection's copy of the ID, so the
+// recorded working ID is not pointer-identical to the configured one.
+func sameHelloID(a, b ClientHelloID) bool {
+	if a.Client != b.Client || a.Version != b.Version {
+		return false
+	}
+	if (a.Seed == nil) != (b.Seed == nil) || (a.Seed != nil && *a.Seed != *b.Seed) {
+		return false
+	}
+	wa, wb := a.Weights, b.Weights
+	if wa == nil {
+		wa = &DefaultWeights
+	}
+	if wb == nil {
+		wb = &DefaultWeights
+	}
+	return *wa == *wb
+}
+
 // Dial attempts to establish connection to given address using different HelloIDs.
 // If a working HelloID is found, it is used again for subsequent Dials.
 // If tcp connection fails or all HelloIDs are tried, returns with last error.
@@ -62,7 +83,7 @@ func (c *Roller) Dial(network, addr, serverName string) (*UConn, error) {
 	if workingHelloId != nil {
 		helloIDFound := false
 		for i, ID := range helloIDs {
-			if ID == *workingHelloId {
+			if sameHelloID(ID, *workingHelloId) {
 				helloIDs[i] = helloIDs[0]
 				helloIDs[0] = *workingHelloId // push working hello ID first
 				helloIDFound = true
